@@ -165,6 +165,8 @@ func gen(cs Case) *pipe.Workload {
 		return pipe.GenRaw(r, o)
 	case "dissect-pool":
 		return genDissectPool(r)
+	case "samelines":
+		return pipe.GenSameLines(r)
 	case "aligned":
 		return pipe.GenAligned(r, false)
 	case "reader-aligned":
@@ -229,6 +231,7 @@ func Run(c *run.Ctx) {
 		{"dissect-pool", c.N(8, 100)},
 		{"aligned", c.N(12, 200)},
 		{"reader-aligned", c.N(6, 100)},
+		{"samelines", c.N(48, 800)},
 		{"cli", c.N(24, 300)},
 		{"cli-color", c.N(18, 180)},
 	}
